@@ -305,6 +305,42 @@ def sample_wellformed(ctx, chk):
         chk.unknown("R11.1", "only %d return paths of Scores.bootstrap_sample analysed" % nret)
 
 
+def _pc_formula(o):
+    from ..terms import conj, negate
+    return conj([c if t else negate(c) for c, t in o.pc])
+
+
+def _int_norm(f):
+    """le0(p) = lt0(p - 1) for an integer-valued p (integer coefficients over len(.) atoms): `n <= 99` is `n < 100`."""
+    from ..terms import to_poly, cmp0, Poly
+    if isinstance(f, App) and f.fn == "le0":
+        p = to_poly(f.args[0])
+        if p is not None and all(c.denominator == 1 for c in p.t.values()) and all(isinstance(a, App) and a.fn == "len" for m in p.t for a, _e in m):
+            return cmp0("lt", p - Poly.const(1))
+    return f
+
+
+def _bool_eval(f, asg):
+    """Value of a boolean term under an assignment of atoms (an atom or its negation may be the key); None = not determined."""
+    from ..terms import negate
+    if isinstance(f, Const):
+        return bool(f.value)
+    for g in (f, _int_norm(f), negate(_int_norm(negate(f)))):
+        if g in asg:
+            return asg[g]
+        n = negate(g)
+        if n in asg:
+            return not asg[n]
+    if isinstance(f, App) and f.fn in ("and", "or", "not"):
+        vs = [_bool_eval(a, asg) for a in f.args]
+        if f.fn == "not":
+            return None if vs[0] is None else not vs[0]
+        if f.fn == "and":
+            return False if any(v is False for v in vs) else (None if any(v is None for v in vs) else True)
+        return True if any(v is True for v in vs) else (None if any(v is None for v in vs) else False)
+    return None
+
+
 def run(ctx, chk, tier):
     chk.rule_text = ("obligations per return path of bootstrap_sample over the built-in configuration matrix (flags, same-class source, delivered size >= 1), per path of "
                      "_sample_indices (count algebra), mirror pairs of the dual functions, dynamic-method resolution; non-trivial = term mentions source arrays or draws")
@@ -356,7 +392,17 @@ def run(ctx, chk, tier):
             else:
                 rp = vals.get("'replacement'", [])
                 sp = vals.get("'single_pass'", [])
-                ok = len(rp) == 1 and len(sp) == 1 and any(c == small and t for c, t in rp[0].pc) and any(c == small and not t for c, t in sp[0].pc)
+                # truth table over the two size atoms: on every assignment exactly the paths with the expected value are enabled
+                # (the shape of the branching - one test, nested tests, early returns, De Morgan forms - is free)
+                ok = bool(rp) and bool(sp)
+                for va in (True, False):
+                    for vb in (True, False):
+                        asg = {small.args[0]: va, small.args[1]: vb} if isinstance(small, App) and small.fn == "or" else {}
+                        en = {k: [_bool_eval(_pc_formula(o), asg) for o in v] for k, v in vals.items()}
+                        want = "'replacement'" if (va or vb) else "'single_pass'"
+                        for k, flags in en.items():
+                            if any(f is None for f in flags) or (k == want) != any(flags) or (k != want and any(flags)):
+                                ok = False
                 if ok:
                     chk.hold("R11.6", inst, "replacement iff len(pos) < 100 or len(neg) < 100, else single pass")
                 else:
